@@ -112,7 +112,7 @@ class Range(object):
 
         """
         for a in range(0, self.N):
-            yield (a-self.N/2) * self.df
+            yield (a-self.N//2) * self.df
 
     def twosided_gen(self):
         """Returns the twosided frequency range as a generator
@@ -579,45 +579,34 @@ class Spectrum(object):
 
         if self.sides == 'onesided':
             logging.debug('Current sides is onesided')
-            if sides == 'twosided':
-                logging.debug('--->Converting to twosided')
-                # here we divide everything by 2 to get the twosided version
-                #N = self.NFFT
-                newpsd = numpy.concatenate((self.psd[0:-1]/2., list(reversed(self.psd[0:-1]/2.))))
-                # so we need to multiply by 2 the 0 and FS/2 frequencies
-                newpsd[-1] = self.psd[-1]
-                newpsd[0] *= 2.
-            elif sides == 'centerdc':
-                # FIXME. this assumes data is even so PSD is stored as
-                # P0 X1 X2 X3 P1
+            # the interior bins are shared equally between +f and -f; the
+            # zero (and, if NFFT is even, the FS/2) frequencies are kept
+            psd = self.psd
+            N = self.NFFT
+            if N//2 + 1 != len(psd):
+                # PSD set manually: NFFT is unknown, assume it is even
+                N = 2 * (len(psd) - 1)
+            half = psd[1:(N+1)//2] / 2.
+            if N % 2 == 0:
+                newpsd = numpy.concatenate((psd[0:1], half, psd[-1:], half[::-1]))
+            else:
+                newpsd = numpy.concatenate((psd[0:1], half, half[::-1]))
+            if sides == 'centerdc':
                 logging.debug('--->Converting to centerdc')
-                P0 = self.psd[0]
-                P1 = self.psd[-1]
-                newpsd = numpy.concatenate((self.psd[-1:0:-1]/2., self.psd[0:-1]/2.))
-                # so we need to multiply by 2 the 0 and F2/2 frequencies
-                #newpsd[-1] = P0 / 2
-                newpsd[0] = P1
+                newpsd = stools.twosided_2_centerdc(newpsd)
         elif self.sides == 'twosided':
             logging.debug('Current sides is twosided')
             if sides == 'onesided':
-                # we assume that data is stored as X0,X1,X2,X3,XN
-                # that is original data is even.
-                logging.debug('Converting to onesided assuming ori data is even')
-                midN = (len(self.psd)-2) / 2
-                newpsd = numpy.array(self.psd[0:int(midN)+2]*2)
-                newpsd[0] /= 2
-                newpsd[-1] = self.psd[-1]
+                logging.debug('Converting to onesided')
+                newpsd = stools.twosided_2_onesided(self.psd)
             elif sides == 'centerdc':
                 newpsd = stools.twosided_2_centerdc(self.psd)
-        elif self.sides == 'centerdc': # same as twosided to onesided
+        elif self.sides == 'centerdc':
             logging.debug('Current sides is centerdc')
+            newpsd = stools.centerdc_2_twosided(self.psd)
             if sides == 'onesided':
                 logging.debug('--->Converting to onesided')
-                midN = int(len(self.psd) / 2)
-                P1 = self.psd[0]
-                newpsd = numpy.append(self.psd[midN:]*2, P1)
-            elif sides == 'twosided':
-                newpsd = stools.centerdc_2_twosided(self.psd)
+                newpsd = stools.twosided_2_onesided(newpsd)
         else:
             raise ValueError("sides must be set to 'onesided', 'twosided' or 'centerdc'")
 
